@@ -2,13 +2,51 @@
 From Coq Require Import List Arith.
 Import ListNotations.
 From Exmex.Model Require Import Base EvalBinary Lexer Flat Deep Convert Calc.
+From Exmex.Spec Require Import RefSem.
+From Exmex.Proofs Require Import DeepSem DeepSubs C11Main DeepOps.
 Open Scope nat_scope.
 
-(* `_partial`: applying an unknown operator name is an error, for every table, data type and operands; applying a
-   name that exists but has no unary (binary) function is an error too.
-   Missing: the homomorphism itself (value of the result = operator applied to the operands' values over the sorted
-   union of the variables) and the soundness of the shortcuts; both are covered by the correspondence (histories of
-   applications against the reference interpreter; arithmetic histories against the unsimplified form). *)
+(* 1. Binary application by name on DEEP expressions is a homomorphism: for every table, every binary operator name and
+   every two index-consistent operands (what the parser, subs and these operations themselves produce): it succeeds,
+   the result is index-consistent with the SORTED UNION of the operands' variable lists (so it can be an operand
+   again: any finite sequence of applications), and at every assignment of that list its value is, modulo R, the
+   operator applied to the operands' values at the corresponding values of THEIR variables. *)
+Theorem C10_deep_binary_application_is_a_homomorphism :
+  forall (D : Type) (C : carrier D) (tb : optable) (R : D -> D -> Prop),
+  (forall a, R a a) -> (forall a b, R a b -> R b a) -> (forall a b c, R a b -> R b c -> R a c) ->
+  (forall k a a' b b', R a a' -> R b b' -> R (binf C k a b) (binf C k a' b')) ->
+  (forall k a a', R a a' -> R (unf C k a) (unf C k a')) ->
+  (forall k, tflagged tb k -> forall a b c, R (binf C k (binf C k a b) c) (binf C k a (binf C k b c))) ->
+  forall (a b : deepex D) (name : str) (k : nat),
+  find_op name tb 0 = Some k -> is_bin tb k = true ->
+  dindexed (tflagged tb) (dvars a) a -> dindexed (tflagged tb) (dvars b) b ->
+  let all := sort_strs (dvars a ++ dvars b) in
+  exists e, operate_bin C tb a b name = Ok e /\ dindexed (tflagged tb) all e /\
+    forall vals', length vals' = length all ->
+    exists v va vb, eval_deep C e vals' = Ok v /\
+                    eval_deep C a (map (env_of C all vals') (dvars a)) = Ok va /\
+                    eval_deep C b (map (env_of C all vals') (dvars b)) = Ok vb /\ R v (binf C k va vb).
+Proof. exact @operate_bin_eval. Qed.
+
+(* 2. the same for unary application: same variable list, value = the operator applied to the operand's value *)
+Theorem C10_deep_unary_application_is_a_homomorphism :
+  forall (D : Type) (C : carrier D) (tb : optable) (R : D -> D -> Prop),
+  (forall a, R a a) -> (forall a b, R a b -> R b a) -> (forall a b c, R a b -> R b c -> R a c) ->
+  (forall k a a' b b', R a a' -> R b b' -> R (binf C k a b) (binf C k a' b')) ->
+  (forall k a a', R a a' -> R (unf C k a) (unf C k a')) ->
+  (forall k, tflagged tb k -> forall a b c, R (binf C k (binf C k a b) c) (binf C k a (binf C k b c))) ->
+  forall (a : deepex D) (name : str) (k : nat),
+  find_op name tb 0 = Some k -> has_un tb k = true -> dindexed (tflagged tb) (dvars a) a ->
+  exists e, operate_unary C tb a name = Ok e /\ dindexed (tflagged tb) (dvars a) e /\
+    forall vals, length vals = length (dvars a) ->
+    exists v va, eval_deep C e vals = Ok v /\ eval_deep C a vals = Ok va /\ R v (unf C k va).
+Proof. exact @operate_unary_eval. Qed.
+
+(* 3. applying an unknown operator name is an error, for every table, data type and operands; applying a name that
+   exists but has no unary function is an error too.
+   Outside these theorems (covered by the correspondence: histories of applications against the reference interpreter;
+   arithmetic histories against the unsimplified form): the same operations on FLAT expressions (which convert to the
+   deep form and back) and the soundness of the neutral-element shortcuts of + - * / pow. *)
 Theorem C10_unknown_binary_name_is_error_partial :
   forall (D : Type) (C : carrier D) (tb : optable) (a b : deepex D) (name : str),
   find_op name tb 0 = None -> operate_bin C tb a b name = Err E_UNKNOWNOP.
@@ -22,4 +60,6 @@ Theorem C10_not_a_unary_operator_is_error_partial :
   find_op name tb 0 = Some k -> has_un tb k = false -> operate_unary C tb a name = Err E_NOUNARY.
 Proof. intros D C tb a name k H Hu. unfold operate_unary. rewrite H, Hu. reflexivity. Qed.
 
+Print Assumptions C10_deep_binary_application_is_a_homomorphism.
+Print Assumptions C10_deep_unary_application_is_a_homomorphism.
 Print Assumptions C10_unknown_binary_name_is_error_partial.
